@@ -119,8 +119,11 @@ theorem ind_eq_indT (T : Array PNode) (j : Nat) (d' : DNode) (g b' : Nat) (hl : 
       simp only [isGroupK, Bool.or_eq_true, beq_iff_eq] at this
       rcases this with h | h <;> simp [h]
     simp only [hl.1, hk, hw.1, indT, if_true, Bool.false_eq_true, if_false]
-    have : g + T[g]!.a + (T[g]!.b - T[g]!.a) = b' + ds.length := by omega
-    rw [this, hl.2.1]
+    have hba : T[g]!.b - T[g]!.a = ds.length := by omega
+    rw [hba]
+    by_cases hlen : ds.length = 0
+    · rw [hlen]; split <;> split <;> omega
+    · obtain ⟨e, _⟩ := hl.2.2.1 (by omega); rw [e]
 
 mutual
 theorem tsN_indT (j : Nat) : ∀ (d : DNode) (idx base : Nat),
@@ -197,7 +200,9 @@ theorem offLocal_ok (T : Array PNode) (d : DNode) (hl : LayN T d 0 1) (hn : T.si
       decide_eq_true_eq, beq_iff_eq]
     by_cases hlen : ds.length = 0
     · left; omega
-    · right; omega
+    · right
+      have := q1.2.2.1 (by omega)
+      omega
 
 /-- **offsets**: a laid-out DAG passes the `offsets` check -/
 theorem wfOffsets_of_lay (G : PiDag) (d : DNode) (hl : LayN G.T d 0 1) (hn : G.T.size = 1 + descT d)
